@@ -100,4 +100,10 @@ DRIVERS = {
         "level_text": "Every scenario of the four families (arguments one at a time x PSI histories, product of all floor/ceiling/guard inputs, pressures around the immediate-mode targets, vanishing / re-created / externally modified targets) is executed for 8 ticks in both modes; each write senpai makes is checked for target, file, alignment, floor, ceiling, amount, pressure guard, swap guard and same-tick reset.",
         "level_note": "Trusted: reference floor/ceiling/guards (DESIGN.md A.6), harness model of kernfs read-back of memory.high / memory.high.tmp / memory.reclaim. The threaded memory_high_timeout_ms path is not exercised.",
     },
+    "C10": {
+        "sources": COMMON + ["props/c10.cpp"], "level": "fault_enumeration", "engine": "E1",
+        "technique": "complete enumeration of single and double faults (file absent/empty/unreadable per cgroup role, optional keys, format variants, DT_UNKNOWN) and of every file-access index as the point where a cgroup is removed or re-created, each executed on the real tick loop under ASan+UBSan+_GLIBCXX_ASSERTIONS with an exception/hang/containment monitor",
+        "level_text": "Every fault of the stated space is injected at the interposed open/openat/fopen/faccessat/xattr boundary (or by an environment event fired immediately before the k-th file access, for every k of the run) and the unmodified Oomd::run is executed for 3 ticks with all core plugins configured; a run counts as survived only if it reaches its horizon with no sanitizer or assertion report, no exception leaving Oomd::run, no hang, and with every signal still confined to the selected victim.",
+        "level_note": "Trusted: fault injection at the libc boundary (glob(3)'s internal directory reads cannot be faulted), harness world. A fault present at configuration load time may lead to a clean rejection, which counts as survived. Garbage contents are outside the statement.",
+    },
 }
